@@ -131,7 +131,8 @@ def job_tests(first):
 
 
 # 'index' is a metadata key of every Tripoli-4 response, hence a natural test label (and the bookkeeping key of Browser)
-LABEL_OPTS = [(v, d, m, i) for v in (True, False) for d in ('d1', 'd2', None) for m in ('m1', None) for i in (None, 7)]
+# label values that are falsy (0, '') are values like any other: only an absent label is 'missing'
+LABEL_OPTS = [(v, d, m, i) for v in (True, False) for d in ('d1', 'd2', None) for m in ('m1', '', None) for i in (None, 7, 0)]
 SELECTIONS = [('day',), ('meal',), ('day', 'meal'), ('meal', 'day'), ('index',), ('day', 'index'), ('day', 'meal', 'index'), ('index', 'day', 'meal'),
               ('meal', 'index', 'day'), ('zz',), ('day', 'zz')]
 
@@ -155,7 +156,8 @@ def job_labels(first):
     for num in (1, 2, 3, 4) if TIER[0] == 'thorough' else (1, 2, 3):
         for rest in itertools.product(LABEL_OPTS, repeat=num - 1):
             combo = (first,) + rest
-            present = {'day' for _, d, _, _ in combo if d} | {'meal' for _, _, m, _ in combo if m} | {'index' for _, _, _, i in combo if i}
+            present = {'day' for _, d, _, _ in combo if d is not None} | {'meal' for _, _, m, _ in combo if m is not None} | \
+                {'index' for _, _, _, i in combo if i is not None}
             for sel in SELECTIONS:
                 case = {'family': 'labels', 'results (verdict, day, meal, index)': combo, 'by_labels': sel}
                 expect_exc = not set(sel) <= present
